@@ -144,7 +144,25 @@ ADDENDA = {
  "C18": " Added oracles: a wrong-width matrix at the FIRST call for the modules whose hyper-parameters fix the width (ART2A, BayesianART, GaussianART: three defects repaired), integer-dtype invalid batches. Added (Prep_whole.v): whole first calls - for any rectangular data set with non-constant columns the output lies in the unit cube, passes Fuzzy ART's validation after complement coding (double width) and is restored exactly; later data inside the remembered bounds likewise. Oracle: whole-number matrices stored as int8 / int16 / int32 / uint8 / bool (a defect repaired: normalize computed in the caller's dtype).",
  "C19": " The protocol model now states validate-then-assign (a rejected set_params changes nothing: C19_rejected_call_changes_nothing; the old behaviour is kept as set_params_before_fix_refuted). Oracles: rejected calls leave all params and attributes unchanged, module-valued entries in the set_params(get_params) round trip, doubly nested names. Oracles: a sub-estimator replaced together with one of its parameters, rejected calls that also replace a module (two defects repaired). Added (axiom-free, Params_nested.v): set_params with sub-estimators - own parameters, module replacement and nested values in one call: an unknown name or an invalid own value changes nothing; a module replaced together with one of its parameters receives the value (either keyword order; before /repo 32a9a46 the value went to the module being replaced: nested_before_fix_refuted). Correspondence on DualVigilanceART and BARTMAP over Fuzzy ART (corr/RunParamsN.v), incl. the recorded partial application when a later nested group is rejected.",
 }
-for _k, _v in ADDENDA.items():
+# wave 7 (end of session 4): implementation-side oracles added after the seeded changes the checks had missed
+ADDENDA7 = {
+ "C01": " The step oracle presents the stream through one re-used (1, d) buffer, so a category that aliases the caller's row moves with the next sample and is reported.",
+ "C04": " Oracle: fits of 2-3 epochs (every elementary module; CVIART with all three indices, iCVIFuzzyART, TopoART, DualVigilanceART, SimpleARTMAP, FusionART), from loose vigilance to one sample per category.",
+ "C05": " Oracle: re-fit histories (fit, fit on a permuted part, fit again) and DualVigilanceART's own book-keeping (one map entry per stored base category, values 0 .. n_clusters-1).",
+ "C09": " Oracle: histories with refused partial_fit batches (non-integral targets, wrong length, NaN): the map and both label vectors are judged right after the refusal.",
+ "C10": " Oracle: the whole fused fit replayed with freshly constructed modules that are only given the channel weights (labels, weights, public activation) for seven module classes as a channel - nothing a module instance keeps between calls can enter the reference.",
+ "C12": " Oracle: the caller overwrites its batch arrays after every training call; the top column of labels_deep_ is compared with the targets that were presented.",
+ "C17": " Oracle: a pruning TopoART row module on structured rows (lone rows, then groups of near copies); the recorded noise-row finding is matched by its exact pattern only.",
+ "C19": " Oracle: set_params on an estimator that was fitted before (fine vigilance), then fit, against a constructed twin (labels, predictions, map, cluster count).",
+}
+ADDENDA7B = {
+ "C06": " Added (axiom-free): a fit of a model WITH a history equals the fit of a freshly constructed one with the same vigilance, for DualVigilanceART (categories, counters, the category-to-cluster map, the wrapper's counter; proved by showing that no step reads the base module's running sample counter, the only thing that survives - DualVig_refit.v), TopoART (adjacency and permanence flags are replaced by the first step - Topo_refit.v) and SimpleARTMAP (A side, map, stored targets, any number of epochs - SAM_refit.v).",
+ "C12": " Added (axiom-free, Deep_compose.v): the k-th level of a prediction above the finest is the composition of the first k+1 layers' maps applied to the finest B-side prediction (what map_deep computes); one level per layer.",
+ "C14": " Added (axiom-free): a pruning round that leaves a category leaves no sample at -1, samples orphaned by an earlier round included (Topo_noise.v); a fit of a TopoART with a history is the fit of a fresh one (Topo_refit.v).",
+ "C15": " Added (axiom-free, CVI_gate_edge.v): one cluster per sample and a single cluster have no validity index, for every n, and the gate then permits the assignment without evaluating one.",
+ "C16": " Added (Falcon_edge.v): without bootstrapping (lambda = 0) the target is clip(Q + alpha (r - Q)), which differs from the 'untrained' short-cut clip(alpha r) whenever the estimate is positive and alpha < 1; with alpha = 0 the target is the clipped estimate.",
+}
+for _k, _v in list(ADDENDA.items()) + list(ADDENDA7.items()) + list(ADDENDA7B.items()):
     CHECKS[_k]["text"] += _v
 
 def main():
